@@ -32,14 +32,42 @@ inductive IoKind where
   | brokenPipe | other | wouldBlock | interrupted | writeZero | timedOut
   deriving DecidableEq, Repr
 
-/-- an `io::Error`; `id` stands for its identity (the harness uses a unique message) -/
+/-- kinds of `minijinja::Error` (as far as a sink may carry one around) -/
+inductive EngKind where
+  | invalidOperation | undefinedError | writeFailure | templateNotFound | badSerialization
+  deriving DecidableEq, Repr
+
+/-- a `minijinja::Error` as *data* carried by somebody else's error: its kind and its own source
+    chain (nothing, another engine error, or an `io::Error` with a message) -/
+inductive EngErr where
+  | leaf (k : EngKind)
+  | chain (k : EngKind) (source : EngErr)
+  | overIo (k : EngKind) (ioKind : IoKind) (ioId : Nat)
+  deriving DecidableEq, Repr
+
+/-- how the sink built the `io::Error` it returns — what is *inside* it.  Nothing of the engine may
+    depend on this: `write_all` looks at the kind only (`is_interrupted`), the API boundary at
+    nothing. -/
+inductive Payload where
+  | bare                                   -- `io::Error::from(kind)`
+  | os (code : Nat)                        -- `io::Error::from_raw_os_error(code)`
+  | msg                                    -- `io::Error::new(kind, String)`
+  | custom                                 -- `io::Error::new(kind, <the sink's own error type>)`
+  | engine (e : EngErr)                    -- `io::Error::new(kind, minijinja::Error)`: looks like an engine error
+  | io (kind : IoKind) (inner : Payload)   -- `io::Error::new(kind, <another io::Error>)`
+  deriving DecidableEq, Repr
+
+/-- an `io::Error` produced by the sink: an opaque token.  `id` stands for its identity (the
+    harness compares the address of the payload and a serial number in it), `payload` for how it
+    was built. -/
 structure IoErr where
   kind : IoKind
   id : Nat
+  payload : Payload
   deriving DecidableEq, Repr
 
-/-- the error `write_all` makes up when `write` returns `Ok(0)` -/
-def writeZeroErr : IoErr := ⟨.writeZero, 0⟩
+/-- the error `write_all` makes up when `write` returns `Ok(0)` (a constant of std, no payload) -/
+def writeZeroErr : IoErr := ⟨.writeZero, 0, .bare⟩
 
 /-- behaviour of the sink at one `write` call -/
 inductive Beh where
@@ -196,11 +224,45 @@ inductive Err where
 /-- `Error::from(fmt::Error)`: "formatting failed", no source -/
 def Err.fromFmt : Err := .writeFailure none
 
-/-- `WriteWrapper::take_err` -/
+/-- `fn write_failure(io_err: io::Error) -> Error`:
+    `Error::new(ErrorKind::WriteFailure, "I/O error during rendering").with_source(io_err)` — the
+    sink's error goes in as it is; nothing of it is looked at (tie: `MJ.Gen.c19BoundaryBodies`) -/
+def writeFailure (io : IoErr) : Err := .writeFailure (some io)
+
+/-- `WriteWrapper::take_err`: `self.err.take().map(write_failure).unwrap_or(original)` -/
 def WriteWrapper.takeErr (w : WriteWrapper) (original : Err) : Err :=
+  (w.err.map writeFailure).getD original
+
+/-- `WriteWrapper::check`:
+    `match self.err.take() { Some(io_err) => Err(write_failure(io_err)), None => Ok(rv) }` -/
+def WriteWrapper.check (w : WriteWrapper) : Except Err Unit :=
   match w.err with
-  | some io => .writeFailure (some io)
-  | none => original
+  | some io => .error (writeFailure io)
+  | none => .ok ()
+
+/-- what an error token would turn into if somebody *unwrapped* it instead of wrapping it: the
+    engine error it carries (used only to state that this never happens) -/
+def EngKind.code : EngKind → Nat
+  | .invalidOperation => 1 | .undefinedError => 2 | .writeFailure => 3
+  | .templateNotFound => 4 | .badSerialization => 5
+
+def EngErr.kind : EngErr → EngKind
+  | .leaf k => k
+  | .chain k _ => k
+  | .overIo k _ _ => k
+
+def EngErr.toErr (e : EngErr) : Err :=
+  match e.kind with
+  | .writeFailure =>
+    match e with
+    | .overIo _ ik iid => .writeFailure (some ⟨ik, iid, .msg⟩)
+    | _ => .writeFailure none
+  | k => .other (1000 + k.code)
+
+def IoErr.unwrapped (io : IoErr) : Option Err :=
+  match io.payload with
+  | .engine e => some e.toErr
+  | _ => none
 
 /-! ## `Output` -/
 
@@ -284,10 +346,7 @@ structure Outcome where
     the evaluation returned, also over `Ok` (the error may have been dropped by user code) -/
 def WriteWrapper.finish (w : WriteWrapper) : Chk (Except Err Unit) → Chk (Except Err Unit)
   | .ok (.error e) => .ok (.error (w.takeErr e))
-  | .ok (.ok ()) =>
-    match w.err with
-    | some io => .ok (.error (.writeFailure (some io)))
-    | none => .ok (.ok ())
+  | .ok (.ok ()) => .ok w.check
   | .panic => .panic
 
 /-- `Template::render_captured_to` / `State::render_block_to_write`:
@@ -348,6 +407,56 @@ def renderToU (uops : List UOp) (script : List Beh) : Outcome :=
   let r := runU uops (St.init (⟨script, [], none⟩ : WriteWrapper))
   ⟨r.1.out.w.calls, r.1.out.w.finish r.2⟩
 
+/-! ## user code as a strategy
+
+`UOp.writeIgn` is user code that ignores a result.  In general user code (a custom formatter, an
+`Object::render`, a `Display` impl) *sees* the result of each of its writes and may do anything
+with it: stop, go on writing something else, report `Ok` or `Err(fmt::Error)`.  `UserCode` is such
+a strategy; the theorems quantify over all of them. -/
+
+inductive UserCode where
+  /-- return `Ok(())` (`true`) or `Err(fmt::Error)` -/
+  | ret (ok : Bool)
+  /-- write `c` (through any method of `fmt::Write` / `Formatter` / `Output`), then go on
+      depending on whether that write succeeded -/
+  | write (c : Chunk) (k : Bool → UserCode)
+
+def UserCode.run {B : Type} [FmtWrite B] : UserCode → Out B → Out B × Bool
+  | .ret ok, o => (o, ok)
+  | .write c k, o => (k (o.write c).2).run (o.write c).1
+
+/-- operations of a render in which user code takes part -/
+inductive XOp where
+  | strict (o : Op)
+  /-- a call of user formatting code; `Err(fmt::Error)` from it stops the evaluation
+      (`Error::from(fmt::Error)`), `Ok` lets it go on -/
+  | user (u : UserCode)
+
+def stepX {B : Type} [FmtWrite B] (x : XOp) (st : St B) : St B × Halt :=
+  match x with
+  | .strict o => step o st
+  | .user u =>
+    ({ st with out := (u.run st.out).1 },
+      if (u.run st.out).2 then none else some (.ok (wrapAll st.wraps Err.fromFmt)))
+
+def runX {B : Type} [FmtWrite B] : List XOp → St B → St B × Chk (Except Err Unit)
+  | [], st => (st, .ok (.ok ()))
+  | x :: xs, st =>
+    match stepX x st with
+    | (st', none) => runX xs st'
+    | (st', some (.ok e)) => (st', .ok (.error e))
+    | (st', some .panic) => (st', .panic)
+
+def renderToX (xops : List XOp) (script : List Beh) : Outcome :=
+  let r := runX xops (St.init (⟨script, [], none⟩ : WriteWrapper))
+  ⟨r.1.out.w.calls, r.1.out.w.finish r.2⟩
+
+/-- the plain render of the same operations: every write succeeds, so every strategy takes its
+    all-writes-succeeded path -/
+def renderStringX (xops : List XOp) : StrOutcome :=
+  let r := runX xops (St.init ([] : Bytes))
+  ⟨r.1.out.w, r.2⟩
+
 /-- `Track` in `DynObject::render_guarded`: `failed |= rv.is_err()` over the results of the
     object's writes (`true` = the write succeeded) -/
 def trackFailed (results : List Bool) : Bool :=
@@ -389,6 +498,16 @@ hands the captured value to the rest of the program), `exec` evaluates it the wa
 (errors of nested evaluations are wrapped on the way out), and `flatten` computes the operation
 sequence — without looking at the writer. -/
 
+/-- the writer of an `Output` of its own that a nested evaluation creates -/
+inductive Fresh where
+  /-- `Output::new(&mut String)`: a macro, a call block's `caller()`, `State::render_block` -/
+  | string
+  /-- `Output::null()`: `Expression::eval` -/
+  | null
+  /-- `Output::new(&mut WriteWrapper { w, err: None })` over another sink with this behaviour:
+      `State::render_block_to_write` called from a function / filter / test during a render -/
+  | sink (script : List Beh)
+
 inductive Prog where
   | skip
   | emit (c : Chunk)
@@ -399,29 +518,64 @@ inductive Prog where
   | capture (discard : Bool) (body : Prog) (k : Option Bytes → Prog)
   /-- include / super: evaluate `body`, wrap its error -/
   | nested (w : Wrap) (body : Prog)
+  /-- evaluate `body` on an `Output` of its own (macro call, `caller()`, `Expression::eval`,
+      block rendering from a function); the string it built is available to what follows, an
+      error of it is the error of the call -/
+  | own (f : Fresh) (body : Prog) (k : Bytes → Prog)
+
+/-- how the caller goes on after an evaluation on an `Output` of its own -/
+def ownThen {α : Type} (r : Bytes × Chk (Except Err Unit)) (ok : Bytes → α)
+    (bad : Chk (Except Err Unit) → α) : α :=
+  match r with
+  | (v, .ok (.ok ())) => ok v
+  | (_, res) => bad res
 
 /-- big-step evaluation against an `Output` -/
-def exec {B : Type} [FmtWrite B] : Prog → Out B → Out B × Chk (Except Err Unit)
-  | .skip, o => (o, .ok (.ok ()))
-  | .emit c, o =>
+def exec : {B : Type} → [FmtWrite B] → Prog → Out B → Out B × Chk (Except Err Unit)
+  | _, _, .skip, o => (o, .ok (.ok ()))
+  | _, _, .emit c, o =>
     let r := o.write c
     (r.1, if r.2 then .ok (.ok ()) else .ok (.error Err.fromFmt))
-  | .fail e, o => (o, .ok (.error e))
-  | .seq a b, o =>
+  | _, _, .fail e, o => (o, .ok (.error e))
+  | _, _, .seq a b, o =>
     match exec a o with
     | (o', .ok (.ok ())) => exec b o'
     | r => r
-  | .capture d body k, o =>
+  | _, _, .capture d body k, o =>
     match exec body (o.beginCapture d) with
     | (o', .ok (.ok ())) =>
       match o'.endCapture with
       | .ok (o'', v) => exec (k v) o''
       | .panic => (o', .panic)
     | r => r
-  | .nested w body, o =>
+  | _, _, .nested w body, o =>
     match exec body o with
     | (o', .ok (.error e)) => (o', .ok (.error (.wrapped w e)))
     | r => r
+  | _, _, .own f body k, o =>
+    ownThen
+      (match f with
+      | .string => ((exec body (⟨([] : Bytes), []⟩ : Out Bytes)).1.w, (exec body (⟨([] : Bytes), []⟩ : Out Bytes)).2)
+      | .null => ([], (exec body (⟨(), [none]⟩ : Out Unit)).2)
+      | .sink script =>
+        ([], (exec body (⟨(⟨script, [], none⟩ : WriteWrapper), []⟩ : Out WriteWrapper)).1.w.finish
+          (exec body (⟨(⟨script, [], none⟩ : WriteWrapper), []⟩ : Out WriteWrapper)).2))
+      (fun v => exec (k v) o) (fun res => (o, res))
+
+/-- the evaluation of an `own` body: the string it builds and how it ends.  It does not depend
+    on the `Output` of the caller. -/
+def ownRun (f : Fresh) (body : Prog) : Bytes × Chk (Except Err Unit) :=
+  match f with
+  | .string => ((exec body (⟨([] : Bytes), []⟩ : Out Bytes)).1.w, (exec body (⟨([] : Bytes), []⟩ : Out Bytes)).2)
+  | .null => ([], (exec body (⟨(), [none]⟩ : Out Unit)).2)
+  | .sink script =>
+    ([], (exec body (⟨(⟨script, [], none⟩ : WriteWrapper), []⟩ : Out WriteWrapper)).1.w.finish
+      (exec body (⟨(⟨script, [], none⟩ : WriteWrapper), []⟩ : Out WriteWrapper)).2)
+
+/-- what the sink of a `Fresh.sink` evaluation saw and what the call returned -/
+def ownOutcome (script : List Beh) (body : Prog) : Outcome :=
+  let x := exec body (⟨(⟨script, [], none⟩ : WriteWrapper), []⟩ : Out WriteWrapper)
+  ⟨x.1.w.calls, x.1.w.finish x.2⟩
 
 /-- what a program that runs to completion writes to the target that is current at its start -/
 def written : Prog → Bytes
@@ -431,8 +585,10 @@ def written : Prog → Bytes
   | .seq a b => written a ++ written b
   | .capture d body k => written (k (if d then none else some (written body)))
   | .nested _ body => written body
+  | .own f body k => written (k (ownRun f body).1)
 
-/-- the operation sequence of a structured program (independent of any writer) -/
+/-- the operation sequence of a structured program (independent of any writer): what happens on
+    an `Output` of its own is not among the operations of this one; only its failure is -/
 def flatten : Prog → List Op
   | .skip => []
   | .emit c => [.write c]
@@ -441,6 +597,11 @@ def flatten : Prog → List Op
   | .capture d body k =>
     .beginCapture d :: (flatten body ++ .endCapture :: flatten (k (if d then none else some (written body))))
   | .nested w body => .enter w :: (flatten body ++ [.leave])
+  | .own f body k =>
+    match (ownRun f body).2 with
+    | .ok (.ok ()) => flatten (k (ownRun f body).1)
+    | .ok (.error e) => [.fail e]
+    | .panic => [.panic]
 
 /-- the writer API on a structured program -/
 def renderProgTo (p : Prog) (script : List Beh) : Outcome :=
